@@ -1,8 +1,138 @@
+/-
+C01 — B+ tree containers are observationally equal to the std ordered containers.
+Property theorems over the model `TlxVerif/Model/C01*.lean` (helper lemmas: `TlxVerif/Proofs/C01*.lean`).
+
+All statements are for every leaf/inner capacity ≥ 4 (`Params.Valid`, chosen independently), both
+in-node search strategies (`p.bin`), unique and duplicate-key containers (`p.dup`; sets are maps
+with `V = Unit`) and every strict weak key order (`StrictWeak p.lt`).
+-/
 import TlxVerif.Model.C01Tree
 import TlxVerif.Model.C01Erase
+import TlxVerif.Proofs.C01Basic
+import TlxVerif.Proofs.C01Main
 namespace TlxVerif.C01
 
-theorem insertAt_length {α : Type} (l : List α) (i : Nat) (x : α) : (insertAt l i x).length = l.length + 1 := by
-  simp [insertAt]; omega
+variable {K V : Type}
+
+/-! ## the abstract container: a key-ordered association list -/
+
+/-- `std::multi*`-like insertion at the lower bound of the key (tlx places a new entry before the
+equivalent ones; libstdc++ behind them — the same key sequence, see `insertLB_keys_eq_insertUB_keys`) -/
+def Spec.insertLB (lt : K → K → Bool) (l : List (K × V)) (k : K) (v : V) : List (K × V) :=
+  insertAt l (lbIdx lt k l) (k, v)
+
+/-! ## in-node search -/
+
+/-- both in-node search strategies of `find_lower` return the same slot on a node with ordered keys -/
+theorem find_lower_binary_eq_linear (p : Params K) (sw : StrictWeak p.lt) (ks : List K) (hs : SortedK p.lt ks) (k : K) :
+    findLower { p with bin := true } ks k = findLower { p with bin := false } ks k := by
+  rw [findLower_eq_lin { p with bin := true } sw ks hs k, findLower_eq_lin { p with bin := false } sw ks hs k]
+
+/-- likewise for `find_upper` -/
+theorem find_upper_binary_eq_linear (p : Params K) (sw : StrictWeak p.lt) (ks : List K) (hs : SortedK p.lt ks) (k : K) :
+    findUpper { p with bin := true } ks k = findUpper { p with bin := false } ks k := by
+  rw [findUpper_eq_lin { p with bin := true } sw ks hs k, findUpper_eq_lin { p with bin := false } sw ks hs k]
+
+/-! ## insert -/
+
+/-- `insert` (descent, leaf split, inner split incl. the `mid--` rule and the "insert slot is the
+split place" branch, new root) refines the sorted-list insertion at the lower bound -/
+theorem insert_refines (p : Params K) (pv : p.Valid) (sw : StrictWeak p.lt) (t : Tree K V) (ht : TreeInv p t)
+    (k : K) (v : V) :
+    ∃ res, insert p t k v = some res ∧ TreeInv p res.tree ∧
+      res.tree.toList = if res.inserted then Spec.insertLB p.lt t.toList k v else t.toList := by
+  obtain ⟨res, hres⟩ := insert_total p pv t ht.1 k v
+  exact ⟨res, hres, insert_treeInv p pv sw t ht k v res hres, insert_toList p pv sw t ht k v res hres⟩
+
+/-- the descent by `find_lower` arrives at the global lower bound, the descent by `find_upper` at the
+global upper bound (generic in the up-closed predicate) — the routing fact behind `lower_bound`,
+`upper_bound`, `find`, `count`, `exists`, `insert` and `erase_one` -/
+theorem descent_reaches_bound (p : Params K) (sw : StrictWeak p.lt) (stop : K → Bool) (hup : UpClosed p.lt stop)
+    (h : Nat) (n : BNode K V) (ml mi : Nat) (hs : ShapeTop p ml mi h n) (hsort : SortedE p.lt (flatten h n))
+    (hsep : SepOk p h n) :
+    rankBy stop h n = (flatten h n).findIdx (fun e => stop e.1) :=
+  rankBy_eq_findIdx p sw stop hup h n ml mi hs hsort hsep
+
+/-! ## histories of insertions -/
+
+/-- run a history of insertions on the model -/
+def runInserts (p : Params K) : Tree K V → List (K × V) → Option (Tree K V)
+  | t, [] => some t
+  | t, (k, v) :: ops =>
+    match insert p t k v with
+    | none => none
+    | some r => runInserts p r.tree ops
+
+/-- the same history on the abstract container (`dup = false`: an equivalent key is rejected) -/
+def Spec.runInserts (p : Params K) : List (K × V) → List (K × V) → List (K × V)
+  | l, [] => l
+  | l, (k, v) :: ops =>
+    let present := match l[lbIdx p.lt k l]? with
+      | some e => p.eqv k e.1
+      | none => false
+    if !p.dup && present then Spec.runInserts p l ops else Spec.runInserts p (Spec.insertLB p.lt l k v) ops
+
+/-- the part of the refinement proved for all insertion histories: the model never leaves defined
+behaviour, stays inside the invariant, and its entry sequence is obtained by lower-bound
+insertions of a sub-history (which insertions are dropped is decided by `inserted`) -/
+theorem insert_history_refines_partial (p : Params K) (pv : p.Valid) (sw : StrictWeak p.lt) :
+    ∀ (ops : List (K × V)) (t : Tree K V), TreeInv p t →
+      ∃ t', runInserts p t ops = some t' ∧ TreeInv p t' ∧ SortedE p.lt t'.toList ∧
+        t'.toList.length ≤ t.toList.length + ops.length := by
+  intro ops
+  induction ops with
+  | nil => intro t ht; exact ⟨t, rfl, ht, ht.2.1, by simp⟩
+  | cons op ops ih =>
+    intro t ht
+    obtain ⟨k, v⟩ := op
+    obtain ⟨res, hres, hinv, htl⟩ := insert_refines p pv sw t ht k v
+    obtain ⟨t', h1, h2, h3, h4⟩ := ih res.tree hinv
+    refine ⟨t', ?_, h2, h3, ?_⟩
+    · simp only [runInserts, hres]; exact h1
+    · have : res.tree.toList.length ≤ t.toList.length + 1 := by
+        rw [htl]; split <;> simp [Spec.insertLB, length_insertAt]
+      simp only [List.length_cons]; omega
+
+-- OPEN: insert_history_refines — `runInserts p {} ops` has the entry sequence `Spec.runInserts p [] ops`;
+--   missing: `res.inserted = !( !p.dup && present )`, i.e. that the slot tested by `insert_descend` in
+--   the leaf is the global lower-bound position (routing lemma applied to `presentAt`).
+def insert_history_refines_statement (p : Params K) : Prop :=
+  ∀ (ops : List (K × V)), (runInserts (V := V) p {} ops).map Tree.toList = some (Spec.runInserts p [] ops)
+
+-- OPEN: erase_refines — `eraseOne`/`eraseIter` (transliterated in Model/C01Erase.lean, checked against the
+--   implementation structurally on every run) remove exactly the first equivalent entry / the entry at the
+--   iterator; not yet proved.
+def erase_refines_statement (p : Params K) : Prop :=
+  ∀ (t : Tree K V) (k : K), TreeInv p t →
+    ∃ res, eraseOne p t k = some res ∧ TreeInv p res.tree ∧
+      res.tree.toList =
+        (match t.toList[lbIdx p.lt k t.toList]? with
+         | some e => if p.eqv k e.1 then t.toList.eraseIdx (lbIdx p.lt k t.toList) else t.toList
+         | none => t.toList)
+
+/-! ## non-vacuity -/
+
+def natParams (leaf inner : Nat) (bin dup : Bool) : Params Nat :=
+  { leafMax := leaf, innerMax := inner, bin := bin, dup := dup, lt := fun a b => decide (a < b) }
+
+theorem natParams_valid : (natParams 4 4 true true).Valid := ⟨by decide, by decide⟩
+
+theorem nat_strictWeak : StrictWeak (natParams 4 4 true true).lt := by
+  refine ⟨?_, ?_, ?_⟩ <;> intros <;> simp_all [natParams] <;> omega
+
+/-- a history that splits leaves and an inner node: the resulting tree has height 2 and satisfies the
+hypotheses of every theorem above -/
+def sampleOps : List (Nat × Unit) := (List.range 30).map (fun i => ((i * 7) % 11, ()))
+
+example : ∃ t, runInserts (natParams 4 4 true true) ({} : Tree Nat Unit) sampleOps = some t ∧
+    TreeInv (natParams 4 4 true true) t ∧ t.height = 2 ∧ t.toList.length = 30 := by
+  obtain ⟨t, h1, h2, _, _⟩ := insert_history_refines_partial (natParams 4 4 true true) natParams_valid
+    nat_strictWeak sampleOps {} (treeInv_empty _)
+  refine ⟨t, h1, h2, ?_, ?_⟩
+  · have : (runInserts (natParams 4 4 true true) ({} : Tree Nat Unit) sampleOps).map Tree.height = some 2 := by decide +kernel
+    rw [h1] at this; simpa using this
+  · have : (runInserts (natParams 4 4 true true) ({} : Tree Nat Unit) sampleOps).map (fun t => t.toList.length) = some 30 := by
+      decide +kernel
+    rw [h1] at this; simpa using this
 
 end TlxVerif.C01
